@@ -1,15 +1,20 @@
 """C12 -- the local filter implements its documented window predicate."""
 from fractions import Fraction
 
+import os
+import re
+import subprocess
+import tempfile
+
 import dsw
 import gen
-from core import Case, enc_call, guard, s2c
+from core import Case, enc_call, guard, s2c, run_model, COQ, VERIF
 
 ID = "C12"
 PROOF_FILE = "Properties/C12.v"
 THEOREMS = ["C12_whole", "C12_last", "C12_last_is_final_window", "C12_local_global", "C12_revcomp", "C12_substring_test",
             "C12_constructor"]
-CONE = ["Proofs/FilterProofs.v", "Filter.v", "FilterSpec.v", "Spec.v", "Py.v"]
+CONE = ["Proofs/FilterProofs.v", "Filter.v", "Thresholds.v", "FilterSpec.v", "Spec.v", "Py.v"]
 MODEL_FUNCTIONS = ["LocalBioFilter.__init__", "LocalBioFilter.valid"]
 RULE = ("strings over ACGTNacgt- of length 0..3k (plus ACGT-only strings and reverse complements), configurations from a grid: "
         "k = 1..8, run limit absent / 1..k (incl. = k), GC range absent or from a grid with degenerate [x,x], [0,1], asymmetric "
@@ -23,7 +28,8 @@ TRUSTED_BASE = [
     "extraction (ExtrOcamlBasic only) + coq/extract/driver.ml + OCaml 4.13.1",
     "correspondence harness harness/core.py, harness/props/c12.py, harness/gen.py",
     "the integer thresholds handed to the model are floor/ceil of the same binary64 products the filter computes, evaluated "
-    "by CPython (IEEE-754 multiplication and subtraction); the oracle recomputes them exactly with Fractions",
+    "by CPython; they are cross-checked against Coq's primitive floats (Thresholds.v, vm_compute) on a sample of (lo, hi, k) "
+    "on every run and against the float comparisons at every count 0..k; the oracle recomputes them exactly with Fractions",
     "modelled, not verified: str slicing / in / count / replace / upper on ASCII, str * int",
 ]
 ASSUMPTIONS = ["window length k >= 1", "motifs and strings are ASCII (str.upper on non-ASCII characters is not modelled)"]
@@ -91,6 +97,13 @@ def payloads(rng, tier):
         cfg = gen.local_cfg(rng, k)
         acgt_only = rng.random() < 0.6
         yield "valid", {"cfg": cfg, "s": string(rng, k, acgt_only), "only_last": rng.random() < 0.4}
+    # the float -> integer threshold step: Coq primitive floats (Thresholds.v, vm_compute) against CPython
+    grid = [0.0, 0.1, 0.2, 0.25, 0.3, 0.35, 0.4, 0.45, 0.5, 0.55, 0.6, 0.65, 0.7, 0.75, 0.8, 0.9, 1.0]
+    for _ in range({"quick": 120, "thorough": 3000, "search": 40}[tier]):
+        lo = rng.choice(grid + [round(rng.random(), 3)])
+        hi = rng.choice([x for x in grid if x >= lo] + [lo, round(lo + (1 - lo) * rng.random(), 3)])
+        yield "thresholds", {"lo": lo, "hi": hi, "k": rng.randint(1, 40)}
+    yield "thresholds", {"lo": 0.8, "hi": 1.0, "k": 5}
     for _ in range(n // 10):
         k = rng.randint(1, 6)
         yield "ctor", {"k": k, "run": rng.choice([None, k - 1, k, k + 1, 0]),
@@ -98,6 +111,21 @@ def payloads(rng, tier):
 
 
 def build(stream, p):
+    if stream == "thresholds":
+        lo, hi, k = p["lo"], p["hi"], p["k"]
+        cfg = {"k": k, "run": None, "gc": [lo, hi], "motifs": None}
+        call = {"lo": float(lo).hex(), "hi": float(hi).hex(), "k": k}
+        impl = lambda: guard(lambda: list(gen.thresholds(cfg)), lambda r: [r])
+
+        def oracle(ans, raw):
+            # the integer thresholds must reproduce the filter's three float comparisons for every count 0..k
+            f = gen.make_filter(cfg)
+            gmin, gmax, amax = raw
+            for g in range(k + 1):
+                if (g > hi * k) != (g > gmax) or (g < lo * k) != (g < gmin) or (g > (1 - lo) * k) != (g > amax):
+                    return "integer thresholds %r do not reproduce the float comparisons at count %d" % (raw, g)
+            return None
+        return Case(stream, p, call, impl, oracle, nontrivial=True, tags=["thresholds"])
     if stream == "ctor":
         cfg = {"k": p["k"], "run": p["run"], "gc": None, "motifs": p["motifs"]}
         h, ms = gen.enc_cfg(cfg)
@@ -157,3 +185,30 @@ def shrink(stream, p):
         for cand in (s[:-1], s[1:]):
             if len(cand) < len(s):
                 yield dict(p, s=cand)
+
+
+def MODEL_RUNNER(calls):
+    """protocol lines go to the extracted model; threshold cases are evaluated by coqc (primitive floats, vm_compute)"""
+    lines = [(i, c) for i, c in enumerate(calls) if isinstance(c, str)]
+    ths = [(i, c) for i, c in enumerate(calls) if isinstance(c, dict)]
+    out = [None] * len(calls)
+    for (i, _), a in zip(lines, run_model([c for _, c in lines])):
+        out[i] = a
+    if ths:
+        os.makedirs(os.path.join(VERIF, "work"), exist_ok=True)
+        work = tempfile.mkdtemp(prefix="c12-", dir=os.path.join(VERIF, "work"))
+        path = os.path.join(work, "Th.v")
+        with open(path, "w") as f:
+            f.write("From Coq Require Import ZArith List PrimFloat.\nFrom DSW Require Import Thresholds.\nImport ListNotations.\n"
+                    "Open Scope Z_scope.\nDefinition t3 (x : Z * Z * Z) : list Z := let '(a, b, c) := x in [a; b; c].\n"
+                    "Eval vm_compute in (flat_map t3 [\n")
+            f.write(";\n".join("thresholds (%s)%%float (%s)%%float %d" % (c["lo"], c["hi"], c["k"]) for _, c in ths))
+            f.write("]).\n")
+        pr = subprocess.run(["timeout", "900", "coqc", "-Q", COQ, "DSW", "-o", path[:-2] + ".vo", path], stdout=subprocess.PIPE,
+                            stderr=subprocess.STDOUT, universal_newlines=True, cwd=work)
+        m = re.search(r"= \[([-0-9; \n]*)\]", pr.stdout)
+        vals = [int(x) for x in re.sub(r"\s+", "", m.group(1)).split(";") if x] if m else []
+        for j, (i, _) in enumerate(ths):
+            out[i] = [[0], vals[3 * j: 3 * j + 3]] if len(vals) == 3 * len(ths) else [[8], pr.stdout[-200:]]
+        subprocess.call(["rm", "-rf", work])
+    return out
